@@ -1,0 +1,43 @@
+//go:build verif
+
+// Contracts for package tx_pool, checked by /verif/govc (comment-only; see /verif/DESIGN.md).
+package tx_pool
+
+// ---------------------------------------------------------------- C17: replacement rule, cache trimming, reject-before-mutate
+//@ trusted func (m *txSortedMap) Get(nonce uint64) (r *types.Transaction)
+//@ trusted func (m *txSortedMap) Put(tx *types.Transaction)
+//@   modifies *
+
+// A same-nonce transaction replaces the old one only with a strictly higher price that is at least the
+// old price plus the configured percentage (threshold = old*(100+bump)/100, integer division last).
+//@ func (l *txList) Add(tx *types.Transaction, priceBump uint64) (inserted bool, replaced *types.Transaction)
+//@   for C17
+//@   requires l != nil && tx != nil && priceBump <= 1000000
+//@   modifies *
+//@   opt noinline
+//@   opt assumecallreqs
+//@   ensures [replacementNeedsBump] inserted && replaced != nil ==> types.gpOf(tx) > types.gpOf(replaced) && types.gpOf(tx) >= (types.gpOf(replaced) * (100 + priceBump)) / 100
+//@   ensures [rejectedReturnsNothing] !inserted ==> replaced == nil
+//@   atcall txSortedMap.Put requires [putOnlyWhenAccepted] old == nil || (types.gpOf(tx) > types.gpOf(old) && types.gpOf(tx) >= (types.gpOf(old) * (100 + priceBump)) / 100)
+
+// Capping a list drops the highest nonces; a cached sorted view keeps its front (lowest nonces).
+//@ func (m *txSortedMap) Cap(threshold int) (drops types.Transactions)
+//@   for C17
+//@   requires m != nil
+//@   modifies *
+//@   opt noinline
+//@   opt assumecallreqs
+//@   atstore txSortedMap.cache requires [cacheTrimmedFromTheBack] new == old[:len(old) - len(drops)]
+
+//@ trusted func (t *txLookup) Get(hash common.Hash) (r *types.Transaction)
+//@ trusted func (as *accountSet) containsTx(tx *types.Transaction) (r bool)
+//@ trusted func (as *accountSet) contains(addr common.Address) (r bool)
+
+// Submission: nothing of the pool's local-sender set is touched before the transaction passed validation.
+//@ func (pool *TxPool) add(tx *types.Transaction, local bool) (replaced bool, err error)
+//@   for C17
+//@   requires pool != nil && tx != nil && pool.locals != nil
+//@   modifies *
+//@   opt noinline
+//@   opt assumecallreqs
+//@   atcall TxPool.validateTx requires [nothingMarkedLocalBeforeValidation] pool.locals == old(pool.locals) && (forall a common.Address :: has(pool.locals.accounts, a) == old(has(pool.locals.accounts, a)))
